@@ -17,3 +17,9 @@ with forest_nodup (f : forest) : bool :=
 
 Definition wf_strict (c : case) : bool :=
   wf_case c && forallb (fun nf : nsfiles => forallb (fun lf : loc * forest => forest_nodup (snd lf)) (snd nf)) (c_nss c).
+
+(** the correspondence predicates on the strict domain (code 1 = outside it) *)
+Definition check_strict (spec : case -> impl_result -> bool) (c : case) : N :=
+  if negb (wf_strict c) then 1 else check_with spec c.
+Definition check_C03s : case -> N := check_strict spec_C03.
+Definition check_C07s : case -> N := check_strict spec_C07.
